@@ -9,18 +9,40 @@ fn main() {
     let args: Vec<String> = std::env::args().collect();
     let days: i64 = args.get(1).and_then(|s| s.parse().ok()).unwrap_or(3);
     let thr: usize = args.get(2).and_then(|s| s.parse().ok()).unwrap_or(0);
-    let params = Params::new(Method::Isna);
+    // mode "panic": an input on which the library itself panics (interval-based method at 80 N in
+    // polar night, DESIGN.md §5): the parallel call must then end the same way as the sequential
+    // one (a propagated panic), not hang - the case shuttle cannot simulate (§2.4)
+    let panic_mode = args.get(3).map(|s| s == "panic").unwrap_or(false);
+    let (params, lat, lon, gmt, start) = if panic_mode {
+        (Params::new(Method::UmmAlQurra), 80.0, 20.0, 1.0, NaiveDate::from_ymd_opt(2023, 1, 4).unwrap())
+    } else {
+        (Params::new(Method::Isna), 21.4, 39.8, 3.0, NaiveDate::from_ymd_opt(2023, 12, 30).unwrap())
+    };
     let coords = Coordinates::new(
-        Latitude::try_from(21.4).unwrap(),
-        Longitude::try_from(39.8).unwrap(),
+        Latitude::try_from(lat).unwrap(),
+        Longitude::try_from(lon).unwrap(),
         Elevation::try_from(300.).unwrap(),
     );
-    let location = Location { coords, gmt: Gmt::try_from(3.).unwrap() };
-    let start = NaiveDate::from_ymd_opt(2023, 12, 30).unwrap();
+    let location = Location { coords, gmt: Gmt::try_from(gmt).unwrap() };
     let range = DateRange::from(start..=start + Duration::days(days - 1));
-    let seq = prayer_times_dt_rng(&params, location, &range);
-    let par = prayer_times_dt_rng_block(&params, location, &range, thr);
-    assert_eq!(seq.len() as i64, days.max(0));
-    assert!(par == seq, "C15-MISMATCH under Miri: parallel {} dates, sequential {} dates", par.len(), seq.len());
-    println!("ok cpus={} days={} thr={}", std::thread::available_parallelism().map(|n| n.get()).unwrap_or(0), days, thr);
+    std::panic::set_hook(Box::new(|_| {}));
+    let seq = std::panic::catch_unwind(|| prayer_times_dt_rng(&params, location, &range));
+    let par = std::panic::catch_unwind(|| prayer_times_dt_rng_block(&params, location, &range, thr));
+    let _ = std::panic::take_hook();
+    match (&seq, &par) {
+        (Ok(s), Ok(p)) => {
+            assert_eq!(s.len() as i64, days.max(0));
+            assert!(p == s, "C15-MISMATCH under Miri: parallel {} dates, sequential {} dates", p.len(), s.len());
+        }
+        (Err(_), Err(_)) => {}
+        (Ok(_), Err(_)) => panic!("C15-MISMATCH under Miri: parallel call panicked, sequential call returned"),
+        (Err(_), Ok(_)) => panic!("C15-MISMATCH under Miri: sequential call panicked, parallel call returned"),
+    }
+    println!(
+        "ok cpus={} days={} thr={} outcome={}",
+        std::thread::available_parallelism().map(|n| n.get()).unwrap_or(0),
+        days,
+        thr,
+        if seq.is_ok() { "equal maps" } else { "both panicked" }
+    );
 }
